@@ -1,13 +1,18 @@
 // Package c09: the box tree obeys the CSS box-generation rules.
 //
-// Bounded exhaustive enumeration of small element trees (ordered forests of 3, in thorough 4,
+// Bounded exhaustive enumeration of small element trees (ordered forests of 2, 3, in thorough 4,
 // unknown elements under <body>, with distinct letters before/between/after the children) x every
 // assignment of the 21 display keywords to every element x one extra deviation (float, absolute
 // or fixed position, ::before/::after, marker position, <img> child, replaced element, colspan,
-// rowspan, white-space-only / no text), plus a sub-space of real <table> markup (rows x cells x
-// colspan/rowspan x row groups). Every document goes through the real pipeline
-// tree.NewHTML -> GetAllComputedStyles -> boxes.BuildFormattingStructure (no layout) and the
-// resulting tree is checked against the invariants I1..I9 of DESIGN §5 C09.
+// rowspan, white-space-only / no text; with the 2-element forests, and in thorough with the
+// 3-element forests: float:footnote with block / inline footnote-display, position:running(),
+// replaced elements that load -- <object> with svg or raster data served by the harness, inline
+// <svg> -- with fallback content, children and ::before/::after of their own, <img>/<embed>
+// children with pseudo-elements or display:list-item, images that fail), plus a sub-space of real
+// <table> markup (rows x cells x colspan/rowspan x row groups). Every document goes through the
+// real pipeline tree.NewHTML -> GetAllComputedStyles -> boxes.BuildFormattingStructure (no
+// layout); the resulting tree, and the footnote boxes its ::footnote-call boxes point to, are
+// checked against the invariants I1..I9 of DESIGN §5 C09.
 package c09
 
 import (
